@@ -45,7 +45,7 @@ BOUND = {
     "geometry); one chain with a geometric backbone gap x 20 residue types; "
     "2 deviations: every truncated side chain + a water on the position of "
     "the rebuilt atom; >=2 clash probes on one residue (all side-chain "
-    "hydrogens at once, every hydrogen paired with the first/last one); two heavy atoms of one residue missing in different local frames (backbone oxygen + side-chain end, CB + side-chain end); two partner side chains on the ideal tetrahedral slots of a hydroxyl oxygen x 12 slot-frame torsions (two donors / donor + acceptor / two acceptors); the torsion alphabet: every side-chain torsion of every residue x position set to +30/+90/+180/+270 degrees through the debumper's own routine; every alternative atom name of the topology files (terminal aliases under charged and neutral termini)",
+    "hydrogens at once, every hydrogen paired with the first/last one); two heavy atoms of one residue missing in different local frames (backbone oxygen + side-chain end, CB + side-chain end); two partner side chains on the ideal tetrahedral slots of a hydroxyl oxygen x 12 slot-frame torsions (two donors / donor + acceptor / two acceptors); the torsion alphabet: every side-chain torsion of every residue x position set to +30/+90/+180/+270 degrees through the debumper's own routine; every alternative atom name of the topology files (terminal aliases under charged and neutral termini); side chains in two alternate locations with four label pairs; all bare hosts shifted to eight-column coordinates; omitted hydrogens without debumping",
     "thorough": "quick + every 3-residue window of all seven bundled "
     "protein structures (1433 windows) + water probes at 3.4 A, partner poses for all 15 "
     "partner residues, 2 deviations (water+water, omitted atom+water), "
